@@ -273,7 +273,9 @@ def r13_whitening(ctx, prog, rule="C04-R13"):
               "is negative (sqrt gives NaN and the fit aborts)" %
               (norm(floor, 50), Ln), node=clips[0])
     # the clip comes before the eigenvalues are inverted
-    inv = [st for st in walk_no_nested(fi.node) if isinstance(st, ast.Assign)
+    inv = [st for st in walk_no_nested(fi.node)
+           if isinstance(st, (ast.Assign, ast.Return, ast.AugAssign,
+                              ast.Expr)) and st.value is not None
            and any(isinstance(c, ast.Call) and
                    norm(c.func).split(".")[-1] == "sqrt" and
                    Ln in names_in(c) for c in ast.walk(st.value))]
